@@ -170,6 +170,24 @@ class Explorer:
 
 
 BUILTIN_EXC = set(ExcType.HIER)
+_GEN_CACHE = {}
+
+
+def _is_generator(fn_node):
+    k = id(fn_node)
+    if k not in _GEN_CACHE:
+        found = False
+        stack = list(fn_node.body)
+        while stack and not found:
+            n = stack.pop()
+            if isinstance(n, (ast.Yield, ast.YieldFrom)):
+                found = True
+            elif isinstance(n, (ast.FunctionDef, ast.Lambda, ast.ClassDef)):
+                continue
+            else:
+                stack.extend(ast.iter_child_nodes(n))
+        _GEN_CACHE[k] = found
+    return _GEN_CACHE[k]
 
 
 class Interp:
@@ -754,6 +772,25 @@ class Interp:
     def ev_Starred(self, node, st):
         raise Unsupported("starred expression")
 
+    # ---- generators: the body is run to completion at the call and the yielded values are returned as a
+    # list.  Same values in the same order as lazy evaluation provided generator and consumer do not
+    # interfere (the generator reads nothing the consuming loop writes, and has no effects of its own);
+    # every generator function used this way is listed in the run's library/assumption list.
+    def ev_Yield(self, node, st):
+        sink = st.ghost.get("__yield_sink__")
+        if sink is None:
+            raise Unsupported("yield outside a generator call")
+        v = self.ev(node.value, st) if node.value is not None else None
+        st.deref(sink).append(v)
+        return None
+
+    def ev_YieldFrom(self, node, st):
+        sink = st.ghost.get("__yield_sink__")
+        if sink is None:
+            raise Unsupported("yield from outside a generator call")
+        st.deref(sink).extend(self.iterate(st, self.ev(node.value, st)))
+        return None
+
     # ------------------------------------------------------------------ iteration
     def iterate(self, st, v):
         """Concrete-length iteration: returns a Python list of element values."""
@@ -908,14 +945,22 @@ class Interp:
             if e.module is None:
                 e.module = fv.module
         self.depth += 1
+        is_gen = _is_generator(fv.node)
+        if is_gen:
+            self.lib.USED.add(f"generator evaluated eagerly: {fv.qualname}")
+            prev_sink = st.ghost.get("__yield_sink__")
+            sink = st.alloc([], "generator")
+            st.ghost["__yield_sink__"] = sink
         try:
             self.exec_block(fv.node.body, st)
-            return None
+            return sink if is_gen else None
         except ReturnSig as r:
-            return r.value
+            return sink if is_gen else r.value
         finally:
             self.depth -= 1
             st.env = old
+            if is_gen:
+                st.ghost["__yield_sink__"] = prev_sink
 
     # ------------------------------------------------------------------ statements
     def exec_block(self, body, st):
